@@ -242,6 +242,20 @@ pub struct Plan {
     /// tracing collector installed (tracing build only).
     #[serde(default)]
     pub tracing: bool,
+    /// World A plans only: drive the runner through the `Cucumber` builder and `filter_run`
+    /// (world P, src/runp.rs) instead of polling `runner::Basic::run` directly.
+    #[serde(default, skip_serializing_if = "std::ops::Not::not")]
+    pub pipeline: bool,
+    /// (feature index, rule index): every scenario of these rules is rejected by the run's filter
+    /// (the rule itself stays in its feature, empty). World A applies the filter in its parser,
+    /// world P hands it to `Cucumber::filter_run` as the filter closure.
+    #[serde(default, skip_serializing_if = "Vec::is_empty")]
+    pub filtered_rules: Vec<(usize, usize)>,
+    /// Tracing runs: the subscriber's global filter enables the user's own targets only (the usual
+    /// `RUST_LOG=my_app=info`), which disables cucumber's spans: no scenario id can be found, every log
+    /// goes to "all scenarios in progress" - such plans run one scenario at a time.
+    #[serde(default, skip_serializing_if = "std::ops::Not::not")]
+    pub tracing_targets_only: bool,
 }
 
 pub const SITE_WORLD: &str = "world";
